@@ -470,7 +470,11 @@ def rule_molecule(rep, cx):
     mol = e10.Obj("molgrid", cls="MolGrid", atgrids=grids, aim_weights=aw, indices=e10.arr(idx),
                   atcoords=e10._obj_array([[sp.Symbol(f"c{a}{k}") for k in range(3)] for a in range(2)]),
                   __getitem__=lambda i: grids[int(i)], size=N)
-    it = e10.Interp({}, {})
+    it = e10.Interp({g.name: g.node for g in cx.repo.funcs.values()
+                     if g.module == "molgrid" and g.cls is None and g.parent is None and isinstance(g.node, ast.FunctionDef)}, {},
+                    module_globals={k: v for k, v in e10.module_globals_of(cx.repo.modules["molgrid"].tree).items()
+                                    if not isinstance(v, ast.ClassDef)})
+    mol.resolver = e10.class_resolver(cx.repo, "MolGrid", mol, it)
     low = cx.guard("MolGrid.interpolate", it.call_def, cx.m["mol_interpolate"].node, [mol, fv], {}, {})
     if not callable(low):
         raise AnalysisError("MolGrid.interpolate does not return a function")
